@@ -34,6 +34,16 @@ pub enum End {
     /// one-shot upload: handshake, a large write, close() at once, no warm-up; the (possibly slow) target must still read
     /// everything and then end-of-stream
     ColdUploadThenClose,
+    /// the target writes a short answer (at most 32 KiB: it sits in the server's receive queue before the reset does) and
+    /// resets at once. "Everything already received from the closing side is first delivered": the server can read the
+    /// whole answer before it sees the error, so the application must get all of it, then end-of-stream or a reset.
+    TargetAnswersThenResets,
+    /// the same from the application's side: a last short write, then a reset at once
+    AppSendsThenResets,
+    /// the target can be neither reached nor ruled out (its accept queue is full, SYNs are dropped): the application sends a
+    /// request, waits a moment and closes. The server is still connecting and does not answer the close; the client must
+    /// let go of the flow within a bound of its own all the same. Once the target accepts again everything is released.
+    AppClosesTargetStalled,
     /// nobody listens on the requested port
     TargetRefused,
     /// the requested name does not resolve
@@ -41,7 +51,7 @@ pub enum End {
 }
 
 impl End {
-    pub const ALL: [End; 12] = [
+    pub const ALL: [End; 15] = [
         End::AppClosesClean,
         End::AppClosesInFlight,
         End::TargetClosesClean,
@@ -52,6 +62,9 @@ impl End {
         End::AppClosesTargetLingers,
         End::TargetClosesAppLingers,
         End::ColdUploadThenClose,
+        End::TargetAnswersThenResets,
+        End::AppSendsThenResets,
+        End::AppClosesTargetStalled,
         End::TargetRefused,
         End::TargetUnresolvable,
     ];
@@ -158,7 +171,7 @@ fn run_one(client_port: u16, f: &FlowEnd, tag: u64, tap: Option<&Tap>, keep: &st
                 return (Some(e), false);
             }
             let t0 = Instant::now();
-            let OpenFlow { mut app, mut tgt, app_rx, tgt_rx, .. } = fl;
+            let OpenFlow { mut app, mut tgt, app_rx, tgt_rx, tag_a, tag_t, app_sent, tgt_sent, pre_len, .. } = fl;
             let (watch_app, watch_tgt): (bool, bool);
             match f.end {
                 End::AppClosesInFlight => {
@@ -224,6 +237,37 @@ fn run_one(client_port: u16, f: &FlowEnd, tag: u64, tap: Option<&Tap>, keep: &st
                     }
                     return (None, true);
                 }
+                End::TargetAnswersThenResets | End::AppSendsThenResets => {
+                    let from_target = f.end == End::TargetAnswersThenResets;
+                    let k = 1 + (if from_target { f.down } else { f.up } as usize % 32_000);
+                    let (mut closer, closer_rx, other_rx, tag, off, before) = if from_target { (tgt, tgt_rx, app_rx, tag_t, tgt_sent, tgt_sent) } else { (app, app_rx, tgt_rx, tag_a, app_sent, app_sent + pre_len) };
+                    // the reader thread holds a duplicate of the descriptor: it must be gone, or close() would not reset
+                    drop(closer_rx);
+                    net::reset(&closer);
+                    let w = net::write_ks(&mut closer, tag, off, k);
+                    drop(closer);
+                    if let Err(e) = w {
+                        return (Some(soft("harness-last-write", format!("last write of {} bytes before the reset: {}", k, e))), true);
+                    }
+                    let (r, done) = other_rx.wait(deadline(), |r| r.eof || r.err.is_some());
+                    let (who, whom) = if from_target { ("target", "application") } else { ("application", "target") };
+                    if !done {
+                        return (Some(soft(if from_target { "no-eof-at-app" } else { "no-eof-at-target" }, format!("{} wrote {} bytes and reset the connection; the {} sees neither end-of-stream nor a reset after {:?}", who, k, whom, t0.elapsed()))), true);
+                    }
+                    if let Some(b) = r.bad_at {
+                        return (Some(FlowFail { soft: false, sig: "wrong-byte-before-reset".into(), msg: format!("byte {} received by the {} differs from what the {} wrote", b, whom, who) }), true);
+                    }
+                    if r.count < before + k {
+                        return (
+                            Some(soft(
+                                if from_target { "answer-before-reset-truncated" } else { "upload-before-reset-truncated" },
+                                format!("the {} wrote {} bytes and reset at once; the proxy had received them (they precede the reset in its receive queue) but the {} got only {} of them before the flow ended ({})", who, k, whom, r.count.saturating_sub(before), if r.eof { "end-of-stream" } else { "reset" }),
+                            )),
+                            true,
+                        );
+                    }
+                    return (None, true);
+                }
                 End::AppClosesTargetLingers => {
                     let _ = app.shutdown(Shutdown::Both);
                     let r = tgt_rx.wait(deadline(), |r| r.eof || r.err.is_some());
@@ -264,6 +308,8 @@ fn run_one(client_port: u16, f: &FlowEnd, tag: u64, tap: Option<&Tap>, keep: &st
         }
     }
 }
+
+// (End::AppClosesTargetStalled is handled by exec_once itself: it needs the cluster's descriptor counts.)
 
 pub struct CaseResult {
     pub fail: Option<FlowFail>,
@@ -321,6 +367,7 @@ pub fn exec_once(c: &Case) -> CaseResult {
     let mut moved = false;
     // link cuts end every flow that is open at that moment: they run after the others, one at a time
     let (cuts, others): (Vec<(usize, &FlowEnd)>, Vec<(usize, &FlowEnd)>) = c.flows.iter().enumerate().partition(|(_, f)| f.end == End::LinkCut);
+    let (stalled, others): (Vec<(usize, &FlowEnd)>, Vec<(usize, &FlowEnd)>) = others.into_iter().partition(|(_, f)| f.end == End::AppClosesTargetStalled);
     if c.concurrent {
         std::thread::scope(|sc| {
             let hs: Vec<_> = others.iter().map(|(i, f)| sc.spawn(move || run_one(port, f, 500 + *i as u64, None, keep))).collect();
@@ -338,6 +385,51 @@ pub fn exec_once(c: &Case) -> CaseResult {
             fails.extend(fl);
         }
     }
+    // flows whose target stalls: all of them at once against one stalled target, after the others
+    let mut stalled_target: Option<net::StalledTarget> = None;
+    let mut long_settle = false;
+    if !stalled.is_empty() {
+        let st = net::StalledTarget::new();
+        if !st.is_stalled() {
+            res.labels.push("stall-not-achieved".into());
+        } else {
+            let mut apps = vec![];
+            for (i, f) in &stalled {
+                match net::app_connect(port, f.hs, st.port, Duration::from_secs(10)) {
+                    Ok((mut s, _)) => {
+                        let _ = net::write_ks(&mut s, 900 + *i as u64, 0, f.first.max(1) as usize);
+                        apps.push(s);
+                    }
+                    Err(e) => fails.push(soft("handshake", format!("local handshake towards a stalled target failed: {}", e))),
+                }
+            }
+            std::thread::sleep(Duration::from_millis(300));
+            let held = procfs::fd_count(cl.client.pid);
+            for s in &apps {
+                let _ = s.shutdown(Shutdown::Both);
+            }
+            drop(apps);
+            let t0 = Instant::now();
+            let max = Duration::from_secs(if rt::failed_already() { 12 } else { 25 });
+            let mut now = procfs::fd_count(cl.client.pid);
+            while now > base.0 && t0.elapsed() < max {
+                std::thread::sleep(Duration::from_millis(50));
+                now = procfs::fd_count(cl.client.pid);
+            }
+            if now > base.0 && fails.is_empty() {
+                fails.push(soft(
+                    "client-holds-flows-while-the-server-stalls",
+                    format!("{} applications closed their flows towards a target that neither accepts nor refuses (the server is still connecting); {:?} later the client still holds {} descriptors (idle baseline {}, {} while the flows were open): {}", stalled.len(), t0.elapsed(), now, base.0, held, fd_report(cl.client.pid)),
+                ));
+            }
+            res.labels.push(format!("client-released-after-s:{}", t0.elapsed().as_secs()));
+            moved = true;
+            long_settle = true;
+        }
+        let mut st = st;
+        st.release();
+        stalled_target = Some(st);
+    }
     for (i, f) in &cuts {
         if spec.via_tap {
             let (fl, m) = run_one(port, f, 500 + *i as u64, tap.as_ref(), keep);
@@ -348,8 +440,10 @@ pub fn exec_once(c: &Case) -> CaseResult {
     let mut fail = fails.iter().find(|f| !f.soft).cloned().or_else(|| fails.first().cloned());
     // every flow of the batch has ended: descriptors must return to the idle baseline
     if fail.is_none() {
-        let max = Duration::from_secs(if rt::failed_already() { 5 } else { 20 });
+        // (after a stall the server's pending connect completes with the kernel's next SYN retransmission: up to 16 s more)
+        let max = Duration::from_secs(if long_settle { 45 } else if rt::failed_already() { 5 } else { 20 });
         let (a, b) = settle(&cl, base.0, base.1, max);
+        drop(stalled_target.take());
         if a > base.0 || b > base.1 {
             let who = if b > base.1 { "server" } else { "client" };
             fail = Some(soft(
@@ -409,7 +503,7 @@ pub fn exec_confirmed(c: &Case) -> (CaseResult, u32) {
 
 fn flow_strategy() -> BoxedStrategy<FlowEnd> {
     let len = || crate::props::c01::len_strategy(150_000);
-    (crate::props::c01::hs_strategy(), len(), len(), len(), prop_oneof![9 => proptest::sample::select(End::ALL.to_vec()), 1 => proptest::sample::select(vec![End::AppClosesClean, End::TargetClosesClean, End::AppResets, End::TargetResets, End::ColdUploadThenClose, End::TargetRefused])]).prop_map(|(hs, first, up, down, end)| FlowEnd { hs, first, up, down, end }).boxed()
+    (crate::props::c01::hs_strategy(), len(), len(), len(), prop_oneof![9 => proptest::sample::select(End::ALL.to_vec()), 1 => proptest::sample::select(vec![End::AppClosesClean, End::TargetClosesClean, End::AppResets, End::TargetResets, End::ColdUploadThenClose, End::TargetRefused, End::TargetAnswersThenResets, End::AppSendsThenResets])]).prop_map(|(hs, first, up, down, end)| FlowEnd { hs, first, up, down, end }).boxed()
 }
 
 fn case_strategy(tier: Tier, combo: Option<(Proto, Transport)>) -> BoxedStrategy<Case> {
